@@ -305,7 +305,8 @@ fn run_child(exe: &std::path::Path, file: &std::path::Path) -> Obs {
         match child.try_wait() {
             Ok(Some(st)) => break Some(st),
             Ok(None) => {
-                if t0.elapsed() > Duration::from_secs(CHILD_LIMIT_SECS) {
+                // CPU time of the child (a spinning implementation), wall clock only as a fallback
+                if out::child_expired(child.id(), t0, CHILD_LIMIT_SECS, 600) {
                     hang = true;
                     let _ = child.kill();
                     let _ = child.wait();
